@@ -68,31 +68,32 @@ def bursts(rng, n, k=None):
 
 # ---- scenario families -------------------------------------------------------------------------------------------
 
-def race_cases(rng, guarded, n_random):
+def race_cases(rng, guarded, cfix, n_random):
     """a repeated delete of one mapping racing a re-claim of its name (the schedule that separates the repaired from the
     pinned DeleteMapping), exact schedules for both step counts plus burst-randomised variants"""
     th = [thr(1, [C("a", 11), D(0)]), thr(1, [D(-1, 1)]), thr(2, [C("a", 22)]), thr(3, [C("a", 33)]), thr(9, [L("a.tunnox.net:80")])]
     out = []
+    k = 5 if cfix else 4         # storage calls of a complete CreateMapping (SetNX counter), Incr, SetNX index, Set record, Append
     if guarded:
-        out.append(case(th, [0] * 4 + [1] + [0] * 7 + [2] * 4 + [1] * 6 + [3] * 4 + [4] * 2))
-        out.append(case(th, [0] * 4 + [1] * 3 + [0] * 7 + [2] * 4 + [1] * 4 + [3] * 4 + [4] * 2))
+        out.append(case(th, [0] * k + [1] + [0] * 7 + [2] * k + [1] * 6 + [3] * k + [4] * 2))
+        out.append(case(th, [0] * k + [1] * 3 + [0] * 7 + [2] * k + [1] * 4 + [3] * k + [4] * 2))
     else:
-        out.append(case(th, [0] * 4 + [1] + [0] * 4 + [2] * 4 + [1] * 3 + [3] * 4 + [4] * 2))
+        out.append(case(th, [0] * k + [1] + [0] * 4 + [2] * k + [1] * 3 + [3] * k + [4] * 2))
     # cleanup-style double delete: the second deleter is another session of the same client
     for _ in range(n_random):
-        pre = [0] * 4
+        pre = [0] * k
         out.append(case(th, pre + bursts(rng, 5)))
     # rollback of a create whose record is already visible, racing a delete and a re-claim
-    th2 = [thr(1, [C("a", 11)], [False, False, False, True]), thr(1, [D(-1, 1)]), thr(2, [C("a", 22)]), thr(9, [L("a.tunnox.net")])]
-    out.append(case(th2, [0] * 3 + [1] * 9 + [2] * 4 + [0] * 9 + [3] * 2))
-    out.append(case(th2, [0] * 3 + [1] + [0] + [1] * 9 + [2] * 4 + [0] * 9 + [3] * 2))
+    th2 = [thr(1, [C("a", 11)], [False] * (k - 1) + [True]), thr(1, [D(-1, 1)]), thr(2, [C("a", 22)]), thr(9, [L("a.tunnox.net")])]
+    out.append(case(th2, [0] * (k - 1) + [1] * 9 + [2] * k + [0] * 9 + [3] * 2))
+    out.append(case(th2, [0] * (k - 1) + [1] + [0] + [1] * 9 + [2] * k + [0] * 9 + [3] * 2))
     for _ in range(n_random // 2):
-        out.append(case(th2, [0] * 3 + bursts(rng, 4)))
+        out.append(case(th2, [0] * (k - 1) + bursts(rng, 4)))
     # an update writing the record back after the delete (orphan record), then a late second delete
     th3 = [thr(1, [C("a", 11), U(0, "inactive", 0, 12)]), thr(1, [D(-1, 1), D(-1, 1)]), thr(2, [C("a", 22), U(0, "active", T0 + 5000, 23)]),
            thr(9, [L("a.tunnox.net"), L("A.TUNNOX.NET"), L("a.tunnox.net:")])]
     for _ in range(n_random // 2):
-        out.append(case(th3, [0] * 4 + bursts(rng, 4)))
+        out.append(case(th3, [0] * k + bursts(rng, 4)))
     return out
 
 
@@ -161,23 +162,30 @@ def dup_id_cases(rng, n_random):
 def reset_cases(rng):
     """the counter key disappears (memory.Storage gives a new counter a 24h TTL and never refreshes it)"""
     th = [thr(1, [C("a", 11)]), thr(7, [X()]), thr(2, [C("b", 22)]), thr(9, [L("a.tunnox.net")])]
-    return [case(th, [0] * 4 + [1] + [2] * 4 + [3] * 2)]
+    out = [case(th, [0] * 5 + [1] + [2] * 5 + [3] * 2)]
+    # the clock event anywhere inside and between two creates, on both stores
+    th2 = [thr(1, [C("a", 11), C("c", 13)]), thr(7, [X(), X()]), thr(2, [C("b", 22)]), thr(9, [L("a.tunnox.net"), L("b.tunnox.net")])]
+    for store in ("memory", "hybrid"):
+        for _ in range(12):
+            out.append(case(th2, bursts(rng, 3, 8) + [3] * 4, store=store))
+    return out
 
 
-def exhaustive_cases(guarded):
+def exhaustive_cases(guarded, cfix):
     """all interleavings (storage-call granularity) of a second delete of mapping 1 with {owner's delete ; re-claim by
     another client}, after the create has completed — the smallest scope containing the delete / re-claim race"""
     out = []
     a = 7 if guarded else 4      # steps of a complete DeleteMapping
+    k = 5 if cfix else 4         # steps of a complete CreateMapping
     th = [thr(1, [C("a", 11), D(0)]), thr(1, [D(-1, 1)]), thr(2, [C("a", 22)]), thr(9, [L("a.tunnox.net")])]
     # thread 1 (a steps) against the sequence [thread 0: a steps ; thread 2: 4 steps]
-    seq02 = [0] * a + [2] * 4
+    seq02 = [0] * a + [2] * k
     for pos in itertools.combinations(range(len(seq02) + a), a):
         sched, it = [], iter(seq02)
         ps = set(pos)
         for k in range(len(seq02) + a):
             sched.append(1 if k in ps else next(it))
-        out.append(case(th, [0] * 4 + sched + [3] * 2))
+        out.append(case(th, [0] * k + sched + [3] * 2))
     return out
 
 
@@ -205,7 +213,7 @@ def legacy_term(e):
     return [(e["sub"] + "." + e["base"]).encode("latin1"), e["id"], e["client"], e["tgt"], bool(e["active"]), bool(e["revoked"]), e["exp"]]
 
 
-def case_value(c, o, guarded):
+def case_value(c, o, guarded, cfix):
     names = set()
     for t in c["threads"]:
         for op in t["ops"]:
@@ -221,9 +229,10 @@ def case_value(c, o, guarded):
            [[r["id"], bytes.fromhex(r["name"]), r["client"], r["tgt"], r["st"], r["exp"]] for r in o["recs"]],
            [[row[0], row[1:]] for row in o["lists"]],
            list(o["guards"]), o["next"],
-           [[n.encode("latin1"), list(f)] for n, f in zip(nl, o["finals"])]]
+           [[n.encode("latin1"), list(f)] for n, f in zip(nl, o["finals"])],
+           bool(o["next_ttl"])]
     atomic = not (c["store"] == "hybrid" and o["split_incr"])
-    return [[bool(guarded), bool(atomic), T0], ths, list(o["sched"]), [legacy_term(e) for e in c["reg"]],
+    return [[bool(guarded), bool(atomic), T0, bool(cfix)], ths, list(o["sched"]), [legacy_term(e) for e in c["reg"]],
             [legacy_term(e) for e in c["cloud"]], obs]
 
 
@@ -240,7 +249,7 @@ def classify(c, o):
     rest = set(keys)
     if "duplicate-mapping-id" in rest:
         root = ("hybrid-incr-per-node-counter" if c["mode"] == "nodes" else
-                "counter-expiry-id-reuse" if has_reset else
+                "counter-expiry-id-reuse" if (has_reset or c["mode"] == "backends") else
                 "hybrid-incr-duplicate-id" if c.get("store") == "hybrid" else "duplicate-mapping-id")
         out.append((root, "; ".join(msgs[k] for k in keys if k in DUP_SET)))
         rest -= DUP_SET
@@ -260,6 +269,7 @@ def run(ctx, only_cases=None):
     gen_text = vlib.harness_text(binary, ["gen"])
     gen_changed = vlib.write_if_changed(os.path.join(vlib.COQ, "Gen", "C19.v"), gen_text)
     guarded = "delete_is_guarded : bool := true" in gen_text
+    cfix = "counter_never_expires : bool := true" in gen_text
     broken = None
     try:
         pinfo = vlib.coq_properties("C19")
@@ -275,14 +285,14 @@ def run(ctx, only_cases=None):
         cases = []
         for f in sorted(glob.glob(os.path.join(vlib.VERIF, "corpus", "C19", "*.json"))):
             cases.append(json.load(open(f)))
-        cases += race_cases(rng, guarded, 400 if thorough else 40)
+        cases += race_cases(rng, guarded, cfix, 400 if thorough else 40)
         cases += host_cases(rng)
         cases += dup_id_cases(rng, 60 if thorough else 6)
         cases += reset_cases(rng)
-        cases += [{"mode": "nodes"}]
+        cases += [{"mode": "nodes"}, {"mode": "backends"}]
         cases += [{"mode": "base", "bases": b, "threads": [thr(1, [C("a", 1, x) for x in xs])]}
                   for b, xs in ((BASES, ["t.io", "", "TUNNOX.NET", "tunnox.net.", "x.tunnox.net"]), ([], ["t.io", "example.com"]))]
-        ex = exhaustive_cases(guarded)
+        ex = exhaustive_cases(guarded, cfix)
         cases += ex if thorough else rng.sample(ex, 120)
         cases += [random_case(rng) for _ in range(6000 if thorough else 500)]
     outs = vlib.run_harness(binary, cases, timeout=3000)
@@ -290,12 +300,15 @@ def run(ctx, only_cases=None):
     for c, o in zip(cases, outs):
         if o.get("abandoned"):
             abandoned += 1
+            # a schedule that cannot be replayed is never skipped silently
+            broken = broken or vlib.Broken("C19 harness could not replay a case (%s store): %s" % (c.get("store", c["mode"]), o["abandoned"]),
+                                           json.dumps(c)[:1500])
             continue
         for key, msg in classify(c, o):
             nfail += 1
             ctx.violation(key, "real repository / domain proxy lookup: " + msg, {"case": c, "observed": o})
     sc = [(c, o) for c, o in zip(cases, outs) if c["mode"] == "sched" and not o.get("abandoned")]
-    terms = [case_value(c, o, guarded) for c, o in sc]
+    terms = [case_value(c, o, guarded, cfix) for c, o in sc]
     mism = []
     try:
         res = vlib.model_eval("C19", terms)
@@ -355,14 +368,17 @@ def run(ctx, only_cases=None):
         "samples": [{"case": sc[i][0], "observed": {"results": sc[i][1]["results"], "idx": sc[i][1]["idx"], "viol": sc[i][1]["viol"]}}
                     for i in (0, len(sc) // 2) if i < len(sc)],
         "model_vs_impl_cases": len(terms), "model_vs_impl_mismatches": len(mism), "impl_predicate_failures": nfail,
-        "abandoned_schedules": abandoned, "tree_variant": "repaired removal path" if guarded else "pinned removal path",
+        "abandoned_schedules": abandoned, "tree_variant": ("repaired removal path" if guarded else "pinned removal path") + "; " +
+                                                         ("counter key created without a deadline" if cfix else "pinned id counter (24 h TTL)"),
         "input_distribution": dict(stats, schedules=len(sc), other_modes=len(cases) - len(sc),
                                    host_spellings="name, name:80, name:8080, NAME, name:, name., [::1], [::1]:80, name:80:90, :name, [name]:80, truncated, prefixed"),
         "generated_file_changed": gen_changed,
     })
     ctx.assumptions += [
-        "each storage call (Incr on memory.Storage/Redis, SetNX, Get, Set, Delete, list append/remove) is atomic; ids come from an atomic, "
-        "never-reset counter (violations of this are the recorded findings hybrid-incr-* and counter-expiry-id-reuse)",
+        "each storage call (Incr, SetNX, Get, Set, Delete, list append/remove) is atomic on the store the repository is given (true of "
+        "memory.Storage, redis.Storage and, since d88dca0, hybrid.Storage: checked by the hybrid-store schedules and the two-node probe)",
+        "the counter key vanishes only through its own deadline (modelled, exercised on memory / hybrid / redis@miniredis); a flush of the "
+        "cache tier or a restart of a cache-only counter while records persist is outside the model",
         "the removal guard (30 s TTL) does not expire while its holder is between two storage calls; TTLs of the cached keys are not exercised",
         "lookup time is a parameter of the model; the harness uses expiries 5000 s in the past / future",
         "registry and cloud-control contents are static during a schedule (stage 3 caching into the registry is then unobservable)",
